@@ -5,7 +5,7 @@ From S2T Require Import C15.Model.
 
 (* pdf_extractor._patched_build_char_map, statement skeleton *)
 Definition skeleton : list instr :=
-  [Acquire; IfDepthZero [ReadG; Push Global; SetWrap]; Incr; Release; Yield; Decr; IfDepthZero [PopRestoreAll Global]].
+  [Acquire; IfDepthZero [ReadG; Push Global; SetWrap]; Release; Incr; Yield; Acquire; Decr; IfDepthZero [PopRestoreAll Global]; Release].
 
 Definition patch_targets : nat := 1.
 
